@@ -325,8 +325,14 @@ def check_seed(case):
             sc["isp"] = "auto"
         random.seed(case["pyseed"])
         script = models.build_script(sc)           # rng_seed=None: drawn from Python's generator
-        drawn = script.rng_seed
+        # half of the cases never look at the seed before the run (a seed drawn lazily must still be the stored one)
+        drawn = script.rng_seed if not case.get("unread") else None
         o1 = simulate_script(script, eng.make_engine(engine))
+        if drawn is None:
+            drawn = o1.script.rng_seed
+            if drawn is None:
+                out.append(("C08:seed:stored-seed-missing", "the script stored in the trajectory of a seedless run holds no seed"))
+                return out
         if o1.script.rng_seed != drawn:
             out.append(("C08:seed:stored-seed", "script drew seed %r, trajectory stores %r" % (drawn, o1.script.rng_seed)))
         o2 = simulate_script(o1.script, eng.make_engine(engine))
@@ -424,6 +430,13 @@ def check_wrapper(case):
         us = uq.mk_sys(tuple(case["units"]))
         kw = {"units_system": us, "time_step": 0.25 if engine != "gillespie" else 1e-3, "t_max": sc["t_max"],
               "sampling_policy": policy, "rng_seed": 11}
+        if case.get("isp"):
+            kw["init_state_processing"] = case["isp"]
+            system.state.value[:] = [v + 0.25 * (q + 1) for q, v in enumerate(system.state.value)]
+        if case.get("after"):
+            # an earlier call of the wrapper with other keywords must not leak into this one
+            simulate(models.build_system(sc["system"]), [0, 0.1], engine=eng.make_engine(engine), time_step=0.05 if engine != "gillespie" else 1e-3,
+                     init_state_processing=case["after"], sampling_policy="on_iteration", rng_seed=3)
         if policy == "on_interval":
             kw["sampling_interval"] = sc["interval"]
         ts = list(sc["t_sample"])
@@ -441,6 +454,61 @@ def check_wrapper(case):
             out.append(("C08:wrapper:units-differ", "%s / %s vs %s / %s" % (got.t.units, got.data.units, ref.t.units, ref.data.units)))
     except Exception as ex:
         out.append(("C08:wrapper:unexpected-exception", "%s: %s" % (type(ex).__name__, ex)))
+    return out
+
+
+def check_edited(case):
+    """A script object edited in place through documented setters (space geometry, species / reaction parameters) runs
+    like the script written down directly with the edited values: same description, same seed, same trajectory."""
+    out = []
+    engine, gtype, what = case["engine"], case["gtype"], case["edit"]
+    try:
+        from strengths.simulate import simulate_script
+        from strengths.units import UnitValue
+        sc = script_spec(engine, gtype, "on_t_sample", 4)
+        sc2 = __import__("json").loads(__import__("json").dumps(sc))
+        script = models.build_script(sc)          # building the system already asked the space for its volumes once
+        sp = script.system.space
+        net = script.system.network
+        # read-only look at what is about to be edited (observers must not pin what they return)
+        sp.get_cell_vol_array()
+        sp.get_cell_env_array()
+        [(r.kf, r.kr, r.split()) for r in net.reactions]
+        [sp_.D for sp_ in net.species]
+        if gtype == "graph":
+            [(e_.surface, e_.distance) for e_ in sp.edges]
+            sp.get_neighbors(0)
+        if what == "volume":
+            if gtype == "graph":
+                sp.nodes[1].volume = 5.0
+                sc2["system"]["space"]["nodes"][1]["vol"] = 5.0
+            else:
+                sp.cell_vol = 5.0
+                sc2["system"]["space"]["vol"] = 5.0
+        elif what == "edge":
+            if gtype != "graph":
+                return out
+            sp.edges[0].surface = 3.0
+            sp.edges[0].distance = 0.5
+            sc2["system"]["space"]["edges"][0][2:] = [3.0, 0.5]
+        elif what == "D":
+            net.species[0].D = 2.0
+            sc2["system"]["species"][0]["D"] = 2.0
+        elif what == "kf":
+            net.reactions[0].kf = 0.3
+            sc2["system"]["reactions"][0]["kf"] = 0.3
+        direct = models.build_script(sc2)
+        if what in ("volume",):
+            # the state was given explicitly, so only the geometry differs between the two descriptions
+            pass
+        a = simulate_script(script, eng.make_engine(engine))
+        b = simulate_script(direct, eng.make_engine(engine))
+        if (a.t.value.tobytes(), a.data.value.tobytes()) != (b.t.value.tobytes(), b.data.value.tobytes()):
+            out.append(("C08:edited-script:%s:%s" % (what, engine),
+                        "%s %s: the script edited in place (%s) and the script written directly with the edited value give different trajectories"
+                        % (engine, gtype, what)))
+    except Exception as ex:
+        out.append(("C08:edited-script:unexpected-exception", "%s: %s" % (type(ex).__name__, ex)))
     return out
 
 
@@ -483,6 +551,8 @@ def check_case(case):
         return check_stored(case)
     if case["sub"] == "wrapper":
         return check_wrapper(case)
+    if case["sub"] == "edited":
+        return check_edited(case)
     return check_seed(case)
 
 
@@ -571,7 +641,7 @@ def gen_cases(tier, seed0):
     for (e, g) in KINDS:
         for p in POLICIES:
             for r in range(1000 * seed0, 1000 * seed0 + (2 if tier == "quick" else 8)):
-                seeds.append({"sub": "seed", "engine": e, "gtype": g, "policy": p, "pyseed": r})
+                seeds.append({"sub": "seed", "engine": e, "gtype": g, "policy": p, "pyseed": r, "unread": bool((r + len(seeds)) % 2)})
                 if p in ("on_t_sample", "on_iteration"):
                     seeds.append({"sub": "seed", "engine": e, "gtype": g, "policy": p, "pyseed": r, "real": True})
     cases += seeds
@@ -591,12 +661,20 @@ def gen_cases(tier, seed0):
                 if how in ("set_state", "set_chemostat", "state-array-item"):
                     stored.append({"sub": "stored", "engine": e, "gtype": g, "policy": p, "mutation": how, "side": "trajectory-system-edited"})
     cases += stored
+    edited = [{"sub": "edited", "engine": e, "gtype": g, "edit": w} for (e, g) in KINDS for w in ("volume", "edge", "D", "kf")
+              if not (w == "edge" and g != "graph")]
+    cases += edited
     wrap = []
     for (e, g) in KINDS:
         for p in POLICIES[:3]:
             for us3 in (["µm", "s", "molecule"], ["µm", "ms", "molecule"], ["nm", "min", "nmol"]):
                 for o in range(len(WRAP_ORDERS)):
                     wrap.append({"sub": "wrapper", "engine": e, "gtype": g, "policy": p, "units": us3, "order": o})
+        for isp in ("none", "Poisson", "redist", "auto"):
+            wrap.append({"sub": "wrapper", "engine": e, "gtype": g, "policy": "on_t_sample", "units": ["µm", "s", "molecule"], "order": 0, "isp": isp})
+        for after in ("Poisson", "none"):
+            wrap.append({"sub": "wrapper", "engine": e, "gtype": g, "policy": "on_t_sample", "units": ["µm", "s", "molecule"], "order": 1, "after": after,
+                         "isp": None})
     cases += wrap
     sizes = [("driver schedules: all %d ways to consume a %d-iteration run with iterate / iterate_n(1..3) / run(0) / clock-scripted "
               "run slices of 1..3 iterations / run-to-completion x %d scripts (engines x space types x policies)" % (nsch, n, len(scripts)),
@@ -610,6 +688,7 @@ def gen_cases(tier, seed0):
              ("explicitly given seeds {0, 1, 2^31-1, 2^31, 2^32-1} x 6 kinds: seed kept, same description twice => same trajectory", len(given)),
              ("stored scripts: 6 kinds x policies x 7 in-place edits (system state / chemostat / raw array item / time step / request list / seed / none) of "
               "{the caller's script, the stored script} after the run: the other one still reproduces the trajectory", len(stored)),
+             ("scripts edited in place before the run (cell / node volume, edge surface and distance, D, kf) vs the same script written directly: 6 kinds", len(edited)),
              ("simulate() wrapper: 6 kinds x 3 policies x 3 units systems x 3 keyword orders (bare numbers): same trajectory as "
               "simulate_script(RDScript(same arguments))", len(wrap))]
     return cases, sizes
